@@ -1057,6 +1057,10 @@ class SSHProcess(SSHStreamSession, Generic[AnyStr]):
         self._readers = {}
         self._writers = {}
 
+        # Nothing is forwarded to the channel any more
+        for datatype in self._drain_waiters:
+            self._unblock_drain(datatype)
+
     def data_received(self, data: AnyStr, datatype: DataType) -> None:
         """Handle incoming data from the SSH channel"""
 
